@@ -81,3 +81,72 @@ class RecTransport:
 def same(a, b) -> bool:
     """identity-or-equality (NaN-safe) comparison of two values."""
     return a is b or a == b or (a != a and b != b)
+
+
+class SymTuple:
+    """model of tuple.__getitem__ for a symbolic int index (CrossHair realises the index of a
+    concrete tuple of non-numeric items, which never exhausts an unbounded domain): negative indexes
+    wrap, anything outside raises IndexError, the item is selected by forking."""
+
+    def __init__(self, items):
+        self._items = tuple(items)
+
+    def __len__(self):
+        return len(self._items)
+
+    def __iter__(self):
+        return iter(self._items)
+
+    def __getitem__(self, i):
+        n = len(self._items)
+        if i < 0:
+            i = i + n
+        if i < 0 or i >= n:
+            raise IndexError("tuple index out of range")
+        return self._items[concretize(i, n - 1)]
+
+
+class StubHelper:
+    """recording stand-in for a frame helper as seen by APIConnection."""
+
+    def __init__(self):
+        self.writes = []  # one entry per write_packets call: list of (type, payload)
+        self.closed = False
+        self.fail = None
+
+    def write_packets(self, packets, debug_enabled):
+        if self.fail is not None:
+            raise self.fail
+        self.writes.append(list(packets))
+
+    def close(self):
+        self.closed = True
+
+    def set_log_name(self, n):
+        pass
+
+
+def connected_conn(loop=None, keepalive=20.0, on_stop=None, register_internal=True):
+    """a real APIConnection placed directly in CONNECTED with a recording frame helper."""
+    from aioesphomeapi.connection import APIConnection, ConnectionParams, ConnectionState
+
+    if loop is None:
+        loop = base_loop()
+    params = ConnectionParams(addresses=["10.0.0.1"], port=6053, password=None, client_info="c",
+                              keepalive=keepalive, zeroconf_manager=None, noise_psk=None, expected_name=None)
+    stops = []
+
+    def _stop(expected):
+        stops.append(expected)
+        if on_stop is not None:
+            on_stop(expected)
+
+    conn = APIConnection(params, _stop, False, "x")
+    conn._loop = loop
+    helper = StubHelper()
+    conn._frame_helper = helper
+    conn._set_connection_state(ConnectionState.HANDSHAKE_COMPLETE)
+    if register_internal:
+        conn._register_internal_message_handlers()
+    conn._set_connection_state(ConnectionState.CONNECTED)
+    return conn, helper, stops
